@@ -89,6 +89,15 @@ func (p *ConfigProp[T]) NotifyCommitted() {
 	p.onChange.Fire(commit.ref().Get())
 }
 
+// Announces the value in force once more, after a commit has been rolled back. Between the commit and
+// the rollback the refused value could be read: a component whose notification of an earlier update
+// happened to be delivered in that window has picked it up, and follows the restored value again
+// once it is told to look.
+func (p *ConfigProp[T]) NotifyRolledBack() {
+	commit, _ := p.value.Load()
+	p.onChange.Fire(commit.ref().Get())
+}
+
 func (p *ConfigProp[T]) String() string {
 	return fmt.Sprintf("%v", p.value)
 }
